@@ -757,6 +757,27 @@ fn jobs_c13(tier: Tier) -> Vec<TJob> {
                 collide: false,
             });
         }
+        // A full shard (two other keys resident) while a fetch of the contended key is overtaken by an explicit
+        // insert: whatever the superseded fetch result makes the shard evict must still be notified.
+        let a = 4u64;
+        for threads in [
+            vec![vec![TOp::Fetch { k: a }], vec![TOp::Ins { k: a }]],
+            vec![vec![TOp::Fetch { k: a }], vec![TOp::Ins { k: a }, TOp::Ins { k: a }]],
+            vec![vec![TOp::Fetch { k: a }, TOp::Get { k: a, hold: false }], vec![TOp::Ins { k: a }]],
+        ] {
+            v.push(TJob {
+                algo,
+                shards: 1,
+                capacity: 2,
+                prologue: vec![TOp::Ins { k: 8 }, TOp::Ins { k: 12 }],
+                threads,
+                bound: 2,
+                zero_weight_key: None,
+                atomic_points: false,
+                reject_fetched: false,
+                collide: false,
+            });
+        }
     }
     v
 }
